@@ -89,8 +89,9 @@ func (dm *DMap) deleteBackupOnCluster(hkey uint64, key string) error {
 	return g.Wait()
 }
 
-// deleteOnCluster is not a thread-safe function
-func (dm *DMap) deleteOnCluster(hkey uint64, key string, f *fragment) error {
+// deleteFromOtherCopies deletes the key from the previous owners of its
+// partition and from the backup owners.
+func (dm *DMap) deleteFromOtherCopies(hkey uint64, key string) error {
 	owners := dm.s.primary.PartitionOwnersByHKey(hkey)
 	if len(owners) == 0 {
 		panic("partition owners list cannot be empty")
@@ -112,6 +113,15 @@ func (dm *DMap) deleteOnCluster(hkey uint64, key string, f *fragment) error {
 	}
 	if verifhook.Enabled {
 		verifhook.Point("del.afterBackups", dm.s.rt.This().String(), key)
+	}
+	return nil
+}
+
+// deleteOnCluster is not a thread-safe function
+func (dm *DMap) deleteOnCluster(hkey uint64, key string, f *fragment) error {
+	err := dm.deleteFromOtherCopies(hkey, key)
+	if err != nil {
+		return err
 	}
 
 	err = f.storage.Delete(hkey)
@@ -140,7 +150,10 @@ func (dm *DMap) deleteKey(key string) error {
 	if !f.storage.Check(hkey) {
 		// DeleteMisses is the number of deletions reqs for missing keys
 		DeleteMisses.Increase(1)
-		return nil
+		// The primary copy is missing here, but after a failover, or while the
+		// partition is being handed over, the key may still live on a backup
+		// owner or on a previous owner, where reads would find it.
+		return dm.deleteFromOtherCopies(hkey, key)
 	}
 
 	return dm.deleteOnCluster(hkey, key, f)
